@@ -65,8 +65,32 @@ def interleave(r, src):
     return out
 
 
+# characters that text tools treat specially (byte order mark, NUL, line and paragraph separators,
+# bidi controls, replacement character, the last scalar value): none of them is a command
+SPECIAL = [0xFEFF, 0, 10, 13, 0x85, 0x2028, 0x2029, 0x200B, 0x202E, 0xFFFD, 0xFFFE, 0x10FFFF, 0x7F, 0x1B, 9, 0x20]
+
+
 def gen_case(r):
-    k = r.below(8)
+    k = r.below(9)
+    if k == 8:
+        # a special character (often several) at the very start / end / around a bracket of a program
+        # that is unbalanced half of the time: positions are character indices of the whole text
+        s = [ord(c) for c in (gen.uniform(r, 24) if r.below(2) else "".join(r.choice(["[", "]", "+", "[-]", ",", "."]) for _ in range(r.randint(1, 8))))]
+        if r.below(2):
+            i = r.below(len(s) + 1)
+            s.insert(i, ord(r.choice("[]")))
+        for _ in range(r.randint(1, 3)):
+            where = r.below(4)
+            c = r.choice(SPECIAL)
+            if where == 0:
+                s.insert(0, c)
+            elif where == 1:
+                s.append(c)
+            else:
+                br = [i for i, x in enumerate(s) if x in (91, 93)]
+                i = (r.choice(br) + r.below(2)) if br else r.below(len(s) + 1)
+                s.insert(i, c)
+        return s
     if k == 0:
         return [rand_char(r) for _ in range(r.randint(0, 60))]
     if k == 1:
